@@ -63,6 +63,9 @@ fn dispatch(op: &str, a: &[&str]) -> Option<String> {
         "rfinditer" => crate::ops3::rfinditer_op(a),
         "finderops" => crate::ops4::finder_machine(a, false),
         "finderrevops" => crate::ops4::finder_machine(a, true),
+        "pairreport" => crate::ops2::pairreport(a),
+        "finderopsal" => crate::ops4::finder_machine_alias(a, false),
+        "finderrevopsal" => crate::ops4::finder_machine_alias(a, true),
         "iseqalias" => crate::ops4::iseqalias(a),
         _ => None,
     }
